@@ -1,12 +1,12 @@
 import WP.Props.SwapPath
 /-
-  Every reachable state of a static-fee pool: the two invariants
+  Every reachable state of a pool (static or adaptive fee): the two invariants
      `C05.Inv`  (liquidity = covering sum; tick net/gross/initialized = sums over positions)
      `Geo`      (tick index ↔ price consistency; every position on the spacing grid, inside the
                  protocol bounds, lower < upper; machine-type bounds)
   hold after EVERY finite history of operations — including swaps — executed the way the driver and
   the program execute them (a failing operation changes nothing; `reward` commits its partial
-  effects).  This discharges `C05.SwapPreserves` and `C03.PriceBounded` for static-fee pools whose
+  effects).  This discharges the swap case of C05 and the price bound of C03 for pools whose
   swaps run over aligned, consecutive array sequences (which is what the account loader produces:
   `buildSeq_seqOK`).
 -/
@@ -24,7 +24,7 @@ structure Geo (ts0 : Nat) (s : HistState) : Prop where
   ts : 0 < s.pool.ts
   liqU : s.pool.liq ≤ U128_MAX
   fee : s.pool.feeRate ≤ FEE_RATE_HARD_LIMIT
-  static : s.af = none
+  af : ∀ info, s.af = some info → InfoOK info
 
 variable {ts0 : Nat}
 
@@ -104,7 +104,7 @@ theorem geo_of_same (s st : HistState) (g : Geo ts0 s)
     pos := fun kp hk => by
       obtain ⟨q, hq, a, b⟩ := hpos kp hk
       rw [e3, a, b]; exact g.pos q hq,
-    ts := by rw [e3]; exact g.ts, liqU := hL, fee := by rw [e4]; exact g.fee, static := by rw [e5]; exact g.static }
+    ts := by rw [e3]; exact g.ts, liqU := hL, fee := by rw [e4]; exact g.fee, af := by rw [e5]; exact g.af }
 
 theorem replace_same_range (l : List (Nat × PositionD)) (id : Nat) (old new : PositionD) (h : posGet l id = some old)
     (b : new.lower = old.lower) (c : new.upper = old.upper) :
@@ -175,7 +175,7 @@ theorem geo_open (s s' : HistState) (id : Nat) (lo hi : Int) (outs : List Nat) (
                   rcases mem_posSet id _ kp s.positions hk with h1 | h1
                   · exact g.pos kp h1
                   · rw [h1]; exact hok,
-                ts := g.ts, liqU := g.liqU, fee := g.fee, static := g.static }
+                ts := g.ts, liqU := g.liqU, fee := g.fee, af := g.af }
 
 theorem geo_modify (s s' : HistState) (id amount : Nat) (positive : Bool) (outs : List Nat) (g : Geo ts0 s)
     (h : histStep s (.modify id amount positive) = .ok (s', outs)) : Geo ts0 s' := by
@@ -289,17 +289,16 @@ theorem swap_step (s s' : HistState) (amount limit : Nat) (isInput aToB : Bool) 
      else s.pool.price ≤ s'.pool.price ∧ s'.pool.price ≤ adjLimit limit aToB) := by
   unfold histStep at h
   simp only [] at h
-  rw [g.static] at h
   split at h
   · cases h
   · split at h
     · cases h
     · rename_i u hsw
-      obtain ⟨q1, q2, q3, q4, q5, q6⟩ := swap_static s.pool s.ticks s.positions arrays amount limit isInput aToB s.now SWAP_FUEL u
-        g.ts hseq inv.liq (tickFacts_of s inv g) g.tp g.liqU g.fee hamt hsw
+      obtain ⟨q1, q2, q3, q4, q5, q6, q7⟩ := swap_path s.pool s.ticks s.positions arrays amount limit isInput aToB s.now SWAP_FUEL s.af u
+        g.ts hseq inv.liq (tickFacts_of s inv g) g.tp g.liqU g.fee hamt g.af hsw
       obtain ⟨f1, f2, f3, f4, f5⟩ := uas_fields s.pool u aToB s.now
       have key : ∀ st : HistState, st.pool = updateAfterSwap s.pool u aToB s.now → st.ticks = u.ticks →
-          st.positions = s.positions → st.af = none →
+          st.positions = s.positions → (∀ info, st.af = some info → InfoOK info) →
           Inv st ∧ Geo ts0 st ∧ (if aToB then adjLimit limit aToB ≤ st.pool.price ∧ st.pool.price ≤ s.pool.price
             else s.pool.price ≤ st.pool.price ∧ st.pool.price ≤ adjLimit limit aToB) := by
         intro st e1 e2 e3 e4
@@ -314,8 +313,19 @@ theorem swap_step (s s' : HistState) (amount limit : Nat) (isInput aToB : Bool) 
                   ts := by rw [e1, f4]; exact g.ts,
                   liqU := by rw [e1, f1]; exact q4,
                   fee := by rw [e1, f5]; exact g.fee,
-                  static := e4 }
-        · rw [e1, f3]; exact q6
+                  af := e4 }
+        · rw [e1, f3]; exact q5
+      have haf' : ∀ info, (match u.afInfo with | some i => some i | none => s.af) = some info → InfoOK info := by
+        intro info hi
+        cases hs : s.af with
+        | none =>
+          rw [q6 hs, hs] at hi
+          cases hi
+        | some i0 =>
+          obtain ⟨info', e1, _, e3⟩ := q7 i0 hs
+          rw [e1] at hi
+          cases hi
+          exact e3
       split at h
       · cases h
       · split at h
@@ -323,8 +333,7 @@ theorem swap_step (s s' : HistState) (amount limit : Nat) (isInput aToB : Bool) 
         · simp only [Except.ok.injEq, Prod.mk.injEq] at h
           obtain ⟨h1, _⟩ := h
           subst h1
-          exact key _ rfl rfl rfl (by simp only [q5])
-
+          exact key _ rfl rfl rfl haf'
 
 /-! ### reward configuration (partial commits) -/
 
@@ -453,7 +462,7 @@ theorem reach_init (p : PoolD) (now : Nat) (h0 : p.liq = 0) (hts : 0 < p.ts) (hf
   refine ⟨inv_init p h0 now, ?_⟩
   exact { spacing := rfl, tp := by show TP p.tick p.price; rw [htick]; exact TP_ti _ hp1 hp2,
           pos := fun kp hk => (by cases hk), ts := hts, liqU := by show p.liq ≤ U128_MAX; rw [h0]; decide,
-          fee := hfee, static := rfl }
+          fee := hfee, af := fun info hi => (by cases hi) }
 
 
 /-! ### the sequences the account loader builds satisfy `OpOK` -/
@@ -529,4 +538,25 @@ example : OpOK 64 (.swap 6450000 0 true true [0, -5632]) ∧ OpOK 64 (.swap 5000
 example : let s := exOps.foldl histApply { pool := exPool, now := 10 }
     (s.pool.tick < -128 ∧ s.pool.liq = 77777 ∧ s.pool.price < exPool.price ∧ 16216550075672095672 < s.pool.price) = True := by decide +kernel
 
-end WP.Reach
+/-- an adaptive-fee pool: the same, given validated constants and in-range variables -/
+theorem reach_init_adaptive (p : PoolD) (now : Nat) (info : AfInfo) (h0 : p.liq = 0) (hts : 0 < p.ts)
+    (hfee : p.feeRate ≤ FEE_RATE_HARD_LIMIT) (hp1 : MIN_SQRT_PRICE_X64 ≤ p.price) (hp2 : p.price ≤ MAX_SQRT_PRICE_X64)
+    (htick : p.tick = ti p.price) (hinfo : InfoOK info) :
+    Inv { pool := p, now := now, af := some info } ∧ Geo p.ts { pool := p, now := now, af := some info } := by
+  obtain ⟨i0, g0⟩ := reach_init p now h0 hts hfee hp1 hp2 htick
+  constructor
+  · exact inv_of_same _ _ i0 rfl rfl rfl (fun _ _ => rfl) i0.ordered
+  · exact { spacing := rfl, tp := g0.tp, pos := g0.pos, ts := hts, liqU := g0.liqU, fee := hfee,
+            af := fun i hi => by cases hi; exact hinfo }
+
+def exInfo : AfInfo :=
+  AfInfo.mk { filterPeriod := 30, decayPeriod := 600, reductionFactor := 5000, controlFactor := 4000,
+              maxVolAcc := 350000, groupSize := 64, majorSwapThresholdTicks := 64 } {}
+
+example : InfoOK exInfo := ⟨by decide, by decide, by decide, by decide, by decide, by decide⟩
+
+-- the same history on an adaptive-fee pool executes, crosses tick −128 and moves the fee variables
+example : let s := exOps.foldl histApply { pool := exPool, now := 10, af := some exInfo }
+    (s.pool.tick < -128 ∧ s.pool.liq = 77777 ∧ s.pool.price < exPool.price ∧
+      (s.af.map fun i => decide (i.variables.volAcc > 0)) = some true) = True := by decide +kernel
+
